@@ -217,6 +217,25 @@ func c10ops() []c10op {
 			}
 			return errCode(err)
 		}},
+		{"parsectx", func(in string) string {
+			tree, err := gosqlx.ParseWithContext(&pollCtx{Context: context.Background(), k: -1}, in)
+			if err != nil {
+				return "ERR " + err.Error()
+			}
+			d := dumpNode(tree)
+			ast.ReleaseAST(tree)
+			return d
+		}},
+		{"parsectx-yield", func(in string) string {
+			// a context whose polls yield the processor: other goroutines run between a call's conversion and its parse
+			tree, err := gosqlx.ParseWithContext(yieldCtx{context.Background()}, in)
+			if err != nil {
+				return "ERR " + err.Error()
+			}
+			d := dumpNode(tree)
+			ast.ReleaseAST(tree)
+			return d
+		}},
 		{"validate", func(in string) string { return errCode(gosqlx.Validate(in)) }},
 		{"format", func(in string) string {
 			s, err := gosqlx.Format(in, gosqlx.DefaultFormatOptions())
@@ -282,6 +301,18 @@ func c10ops() []c10op {
 		}},
 		{"stats", func(in string) string { _ = metrics.GetStats(); return "" }},
 	}
+}
+
+type yieldCtx struct{ context.Context }
+
+func (y yieldCtx) Err() error { runtime.Gosched(); return nil }
+
+// errorsByTypeTotal: the per-type error breakdown must add up to the error totals
+func errorsByTypeTotal(s metrics.Stats) (sum int64) {
+	for _, v := range s.ErrorsByType {
+		sum += v
+	}
+	return
 }
 
 func statsKey(s metrics.Stats) string {
@@ -351,7 +382,12 @@ func runC10Workload(c *runCtx) {
 			}(jobs[gi])
 		}
 		wg.Wait()
-		conStats := statsKey(metrics.GetStats())
+		conSnap := metrics.GetStats()
+		conStats := statsKey(conSnap)
+		if bt := errorsByTypeTotal(conSnap); bt != conSnap.TokenizeErrors+conSnap.ParseErrors && bt != conSnap.TokenizeErrors {
+			res.fail("metrics-error-breakdown", "the per-type error counts do not add up to the error totals after a concurrent run",
+				map[string]any{"goroutines": N}, map[string]any{"by_type_sum": bt, "tokenize_errors": conSnap.TokenizeErrors, "parse_errors": conSnap.ParseErrors})
+		}
 		for _, js := range jobs {
 			for _, j := range js {
 				res.count(fmt.Sprintf("%d|%d", j.op, j.in), true)
@@ -393,6 +429,31 @@ func runC10Workload(c *runCtx) {
 			res.fail("metrics-minmax-lost-update", "after concurrent first samples the smallest/largest query size or the operation count is wrong",
 				map[string]any{"round": r, "sizes": []int{len(sizes[0]), len(sizes[G-1])}},
 				map[string]any{"min": st.MinQuerySize, "max": st.MaxQuerySize, "ops": st.TokenizeOperations})
+			break
+		}
+	}
+	// first occurrences of an error type recorded concurrently: none is lost
+	for r := 0; r < c.n(1500, 15000); r++ {
+		metrics.Reset()
+		bad := []byte(fmt.Sprintf("SELECT 'never closed %d", r))
+		start := make(chan struct{})
+		var wg sync.WaitGroup
+		for gi := 0; gi < G; gi++ {
+			wg.Add(1)
+			go func() {
+				defer wg.Done()
+				t, _ := tokenizer.New()
+				<-start
+				_, _ = t.Tokenize(bad)
+			}()
+		}
+		close(start)
+		wg.Wait()
+		st := metrics.GetStats()
+		res.Evaluations++
+		if st.TokenizeErrors != int64(G) || errorsByTypeTotal(st) != int64(G) {
+			res.fail("metrics-error-breakdown", "after concurrent first occurrences of an error the totals or the per-type breakdown lost updates",
+				map[string]any{"round": r, "goroutines": G}, map[string]any{"tokenize_errors": st.TokenizeErrors, "by_type_sum": errorsByTypeTotal(st)})
 			break
 		}
 	}
